@@ -108,6 +108,7 @@ EXPORT char *_stpncpy_s_chk(char *restrict dest, rsize_t dmax,
 {
     rsize_t orig_dmax = dmax;
     char* orig_dest = dest;
+    size_t scnt = 0;
     const char *overlap_bumper;
 
     if (unlikely(errp == NULL)) {
@@ -215,12 +216,13 @@ EXPORT char *_stpncpy_s_chk(char *restrict dest, rsize_t dmax,
             if (*dest == '\0')
                 goto eok;
             dmax--;
-            slen++;
+            slen--;
+            scnt++;
             dest++;
             src++;
-            if (unlikely(slen >= srcbos)) {
-                invoke_safe_str_constraint_handler("stpncpy_s: src unterminated",
-                                                   (void *)src, ESUNTERM);
+            if (unlikely(slen && scnt >= srcbos)) {
+                handle_error(orig_dest, orig_dmax, "stpncpy_s: src unterminated",
+                             ESUNTERM);
                 *errp = RCNEGATE(ESUNTERM);
                 return NULL;
             }
@@ -251,27 +253,22 @@ EXPORT char *_stpncpy_s_chk(char *restrict dest, rsize_t dmax,
               eok:
 #ifdef SAFECLIB_STR_NULL_SLACK
                 /* null slack to clear any data */
-                if (dmax > 0x20)
-                    memset(dest, 0, dmax);
-                else {
-                    while (dmax) {
-                        *dest = '\0';
-                        dmax--;
-                        dest++;
-                    }
-                }
+                memset(dest, 0, dmax);
+#else
+                *dest = '\0';
 #endif
                 *errp = RCNEGATE(EOK);
                 return dest;
             }
 
             dmax--;
-            slen++;
+            slen--;
+            scnt++;
             dest++;
             src++;
-            if (unlikely(slen >= srcbos)) {
-                invoke_safe_str_constraint_handler("stpncpy_s: src unterminated",
-                                                   (void *)src, ESUNTERM);
+            if (unlikely(slen && scnt >= srcbos)) {
+                handle_error(orig_dest, orig_dmax, "stpncpy_s: src unterminated",
+                             ESUNTERM);
                 *errp = RCNEGATE(ESUNTERM);
                 return NULL;
             }
